@@ -46,10 +46,10 @@ Definition grpA_lim (rt : pystr) (rm : option pystr) (ex : bool) : bool := lim_m
 Lemma grpA_table :
   forallb (fun rt => forallb (fun rm => forallb (fun all => forallb (fun ex =>
     Bool.eqb (grpA_ok rt rm all ex) (negb (grpA_lim rt rm ex))) bools) bools) (opts rp_response_modes))
-    rp_response_types = true.
+    cfg_response_types = true.
 Proof. vm_compute. reflexivity. Qed.
 
-Lemma grpA : forall rt rm all ex, In rt rp_response_types -> in_opt rm rp_response_modes ->
+Lemma grpA : forall rt rm all ex, In rt cfg_response_types -> in_opt rm rp_response_modes ->
   grpA_ok rt rm all ex = negb (grpA_lim rt rm ex).
 Proof.
   intros rt rm all ex Hrt Hrm. pose proof grpA_table as T.
@@ -66,10 +66,10 @@ Definition grpB_ok (rt : pystr) (tr : transport) (auth : pystr) : bool := par_ok
 Lemma grpB_table :
   forallb (fun rt => forallb (fun tr => forallb (fun auth =>
     Bool.eqb (grpB_ok rt tr auth) (negb (lim_par_jwt tr auth))) rp_token_auth_methods) all_transports)
-    rp_response_types = true.
+    cfg_response_types = true.
 Proof. vm_compute. reflexivity. Qed.
 
-Lemma grpB : forall rt tr auth, In rt rp_response_types -> In auth rp_token_auth_methods ->
+Lemma grpB : forall rt tr auth, In rt cfg_response_types -> In auth rp_token_auth_methods ->
   grpB_ok rt tr auth = negb (lim_par_jwt tr auth).
 Proof.
   intros rt tr auth Hrt Ha. pose proof grpB_table as T.
@@ -83,12 +83,12 @@ Qed.
 Definition grpC_ok (rt sig : pystr) : bool := idt_authz_ok rt sig && idt_token_ok rt sig.
 
 Lemma grpC_table :
-  forallb (fun rt => forallb (fun sig => Bool.eqb (grpC_ok rt sig) (negb (lim_hs_idt sig))) rp_idt_sig_algs)
-    rp_response_types = true.
+  forallb (fun rt => forallb (fun sig => Bool.eqb (grpC_ok rt sig) (negb (lim_hs_idt rt sig))) rp_idt_sig_algs)
+    cfg_response_types = true.
 Proof. vm_compute. reflexivity. Qed.
 
-Lemma grpC : forall rt sig, In rt rp_response_types -> In sig rp_idt_sig_algs ->
-  grpC_ok rt sig = negb (lim_hs_idt sig).
+Lemma grpC : forall rt sig, In rt cfg_response_types -> In sig rp_idt_sig_algs ->
+  grpC_ok rt sig = negb (lim_hs_idt rt sig).
 Proof.
   intros rt sig Hrt Hs. pose proof grpC_table as T.
   rewrite forallb_forall in T. specialize (T _ Hrt).
@@ -110,10 +110,10 @@ Proof. intros [] []; reflexivity. Qed.
 (* ------------------------------------------------------------------ group E: userinfo signing algorithm *)
 Lemma grpE_table :
   forallb (fun rt => forallb (fun sig => Bool.eqb (ui_sig_ok rt sig) (negb (lim_hs_ui rt sig))) (opts rp_ui_sig_algs))
-    rp_response_types = true.
+    cfg_response_types = true.
 Proof. vm_compute. reflexivity. Qed.
 
-Lemma grpE : forall rt sig, In rt rp_response_types -> in_opt sig rp_ui_sig_algs ->
+Lemma grpE : forall rt sig, In rt cfg_response_types -> in_opt sig rp_ui_sig_algs ->
   ui_sig_ok rt sig = negb (lim_hs_ui rt sig).
 Proof.
   intros rt sig Hrt Hs. pose proof grpE_table as T.
@@ -154,8 +154,15 @@ Proof.
   intros p H. pose proof grpG_table as T. rewrite forallb_forall in T. exact (T _ (in_opt_opts _ _ H)).
 Qed.
 
+(* ------------------------------------------------------------------ group H: hashes in the front-channel ID Token *)
+Lemma grpH_table : forallb idt_hashes_ok cfg_response_types = true.
+Proof. vm_compute. reflexivity. Qed.
+
+Lemma grpH : forall rt, In rt cfg_response_types -> idt_hashes_ok rt = true.
+Proof. intros rt H. pose proof grpH_table as T. rewrite forallb_forall in T. exact (T _ H). Qed.
+
 (* ------------------------------------------------------------------ factorisation and the product theorem *)
-(* the checks of one flow regroup into eight independent groups *)
+(* the checks of one flow regroup into nine independent groups *)
 Lemma checks_factor : forall c i,
   forallb snd (checks c i) =
     grpA_ok (c_rt c) (c_rm c) (i_rp_all_rts i) (i_op_explicit i)
@@ -164,6 +171,7 @@ Lemma checks_factor : forall c i,
     && stub_ok (c_tr c) (c_rt c) (i_offline i)
     && par_claims_ok (c_tr c) (i_claims i)
     && grpC_ok (c_rt c) (c_idt_sig c)
+    && idt_hashes_ok (c_rt c)
     && ui_sig_ok (c_rt c) (c_ui_sig c)
     && ui_enc_ok (c_rt c) (c_ui_enc c) (i_secret_len i).
 Proof.
@@ -175,7 +183,7 @@ Proof.
   intros c i (Hrt & Hrm & Hauth & Hsig & _ & Hus & Hue & Hp).
   rewrite checks_factor.
   rewrite (grpA _ _ (i_rp_all_rts i) (i_op_explicit i) Hrt Hrm), (grpG _ Hp), (grpB _ (c_tr c) _ Hrt Hauth),
-    grpD, grpD', (grpC _ _ Hrt Hsig), (grpE _ _ Hrt Hus), (grpF (c_rt c) _ (i_secret_len i) Hue).
+    grpD, grpD', (grpC _ _ Hrt Hsig), (grpH _ Hrt), (grpE _ _ Hrt Hus), (grpF (c_rt c) _ (i_secret_len i) Hue).
   unfold limits, grpA_lim. btauto.
 Qed.
 
@@ -246,28 +254,66 @@ Lemma pkce_plain_limit : str_in (PS "plain") op_pkce_methods = true /\ str_in (P
 Proof. split; vm_compute; reflexivity. Qed.
 
 (* with a silent configuration the pushed-authorization endpoint's table shadows the response types *)
-Lemma shadow_limit : op_adv_rts false = [PS "code"] /\ op_adv_rts true = rp_response_types.
+Lemma shadow_limit : op_adv_rts false = [PS "code"] /\ op_adv_rts true = cfg_response_types.
 Proof. split; vm_compute; reflexivity. Qed.
 
 (* ------------------------------------------------------------------ artefacts *)
-Lemma artefacts_table : forallb artefacts_agree rp_response_types = true.
+Lemma artefacts_table : forallb artefacts_agree cfg_response_types = true.
 Proof. vm_compute. reflexivity. Qed.
 
-Theorem artefacts : forall rt, In rt rp_response_types ->
+Theorem artefacts : forall rt, In rt cfg_response_types ->
   artefacts_agree rt = true
   /\ (forall a, In a (artefacts_rp rt) -> In a (artefacts_op rt))
-  /\ yields_id_token rt = true.
+  /\ (forall h, In h (idt_hashes_required rt) -> In h (idt_hashes_provided rt))
+  /\ (yields_id_token rt = true <-> has_word "id_token" rt = true \/ uses_token_endpoint rt = true).
 Proof.
   intros rt H. pose proof artefacts_table as T. rewrite forallb_forall in T. specialize (T _ H).
   split; [exact T|]. unfold artefacts_agree in T.
-  apply andb_true_iff in T as [T Ty]. apply andb_true_iff in T as [_ Tf].
-  split; [|exact Ty]. intros a Ha. rewrite forallb_forall in Tf. apply str_in_In. exact (Tf _ Ha).
+  apply andb_true_iff in T as [T Ty]. apply andb_true_iff in T as [T Th]. apply andb_true_iff in T as [_ Tf].
+  split; [|split].
+  - intros a Ha. rewrite forallb_forall in Tf. apply str_in_In. exact (Tf _ Ha).
+  - intros h Hh. unfold idt_hashes_ok in Th. rewrite forallb_forall in Th. apply str_in_In. exact (Th _ Hh).
+  - apply eqb_prop in Ty. rewrite Ty. rewrite orb_true_iff. tauto.
 Qed.
 
-Lemma response_types_both_sides : forall rt, In rt rp_response_types <-> In rt op_response_types.
+(* what the relying party requires: c_hash next to a code, at_hash next to an access token *)
+Lemma required_hashes :
+  assoc (PS "code") rp_idt_required_hash = Some (PS "c_hash")
+  /\ assoc (PS "access_token") rp_idt_required_hash = Some (PS "at_hash").
+Proof. split; vm_compute; reflexivity. Qed.
+
+Lemma hashes_by_type : forall rt, In rt cfg_response_types ->
+  (str_in (PS "id_token") (artefacts_op rt) = true -> str_in (PS "code") (artefacts_op rt) = true ->
+     str_in (PS "c_hash") (idt_hashes_provided rt) = true)
+  /\ (str_in (PS "id_token") (artefacts_op rt) = true -> str_in (PS "access_token") (artefacts_op rt) = true ->
+     str_in (PS "at_hash") (idt_hashes_provided rt) = true).
 Proof.
-  assert (E : rp_response_types = op_response_types) by (vm_compute; reflexivity).
-  intros rt. now rewrite E.
+  assert (T : forallb (fun rt =>
+      (negb (str_in (PS "id_token") (artefacts_op rt)) || negb (str_in (PS "code") (artefacts_op rt))
+         || str_in (PS "c_hash") (idt_hashes_provided rt))
+      && (negb (str_in (PS "id_token") (artefacts_op rt)) || negb (str_in (PS "access_token") (artefacts_op rt))
+         || str_in (PS "at_hash") (idt_hashes_provided rt))) cfg_response_types = true) by (vm_compute; reflexivity).
+  intros rt H. rewrite forallb_forall in T. specialize (T _ H). apply andb_true_iff in T as [T1 T2].
+  split; intros Hi Ha; [rewrite Hi, Ha in T1; exact T1|rewrite Hi, Ha in T2; exact T2].
+Qed.
+
+(* every response type the relying party can be configured with is handled by the provider, and the `_supports`
+   defaults of both halves lie inside that set *)
+Lemma response_types_both_sides :
+  cfg_response_types = rp_configurable_response_types
+  /\ (forall rt, In rt rp_configurable_response_types -> In rt op_configurable_response_types)
+  /\ (forall rt, In rt rp_response_types -> In rt cfg_response_types)
+  /\ (forall rt, In rt op_response_types -> In rt cfg_response_types)
+  /\ length cfg_response_types = 7%nat.
+Proof.
+  split; [vm_compute; reflexivity|]. split; [|split; [|split; [|vm_compute; reflexivity]]].
+  - assert (T : forallb (fun t => str_in t op_configurable_response_types) rp_configurable_response_types = true)
+      by (vm_compute; reflexivity).
+    intros rt H. rewrite forallb_forall in T. apply str_in_In. exact (T _ H).
+  - assert (T : forallb (fun t => str_in t cfg_response_types) rp_response_types = true) by (vm_compute; reflexivity).
+    intros rt H. rewrite forallb_forall in T. apply str_in_In. exact (T _ H).
+  - assert (T : forallb (fun t => str_in t cfg_response_types) op_response_types = true) by (vm_compute; reflexivity).
+    intros rt H. rewrite forallb_forall in T. apply str_in_In. exact (T _ H).
 Qed.
 
 (* ------------------------------------------------------------------ views *)
@@ -285,27 +331,30 @@ Proof. intros. apply Z.eqb_eq. lia. Qed.
 Ltac views_tac s :=
   unfold view_agree, forget_idt_exp, view_session, view_token_response, view_introspection, view_userinfo,
     view_id_token, view_rp, view_jwt_access_token, expires_in;
-  cbn [v_client v_sub v_scope v_nonce v_at_exp v_idt_exp opt_agree];
+  cbn [v_client v_sub v_scope v_nonce v_at_exp v_idt_exp opt_agree has_src];
   rewrite ?str_eqb_refl, ?list_str_eqb_refl, ?opt_agree_str_refl, ?Z.eqb_refl, ?exp_roundtrip, ?exp_roundtrip';
   destruct (s_nonce s); reflexivity.
 
-(* flows that pass the token endpoint: every view agrees with every other *)
-Theorem views_agree : forall at_jwt s now, all_agree (all_views true at_jwt s now now) = true.
+(* every flow whose ID Token (if any) comes from the TOKEN endpoint: every view agrees with every other *)
+Theorem views_agree : forall asrc isrc at_jwt s now, isrc <> SrcAuthz ->
+  all_agree (all_views asrc isrc at_jwt s now now) = true.
 Proof.
-  intros at_jwt s now. unfold all_views. destruct at_jwt; cbn [app all_agree forallb]; views_tac s.
+  intros asrc isrc at_jwt s now H. unfold all_views.
+  destruct asrc, isrc, at_jwt; try congruence; cbn [app all_agree forallb has_src andb]; views_tac s.
 Qed.
 
-(* flows without the token endpoint (response type id_token): everything agrees except the ID Token expiry the
-   session database records (0) *)
-Theorem views_agree_implicit : forall at_jwt s now,
-  all_agree (map forget_idt_exp (all_views false at_jwt s now now)) = true
-  /\ all_agree [view_id_token s; view_rp false s now now] = true.
+(* ID Token minted at the AUTHORIZATION endpoint (id_token, id_token token, code id_token token): everything
+   agrees except the ID Token expiry the session database records (0) *)
+Theorem views_agree_implicit : forall asrc at_jwt s now,
+  all_agree (map forget_idt_exp (all_views asrc SrcAuthz at_jwt s now now)) = true
+  /\ all_agree [view_id_token s; view_rp asrc SrcAuthz s now now] = true.
 Proof.
-  intros at_jwt s now. unfold all_views. split; cbn [map app all_agree forallb]; views_tac s.
+  intros asrc at_jwt s now. unfold all_views.
+  split; destruct asrc, at_jwt; cbn [map app all_agree forallb has_src andb]; views_tac s.
 Qed.
 
 Theorem views_agree_implicit_refuted :
-  exists s, all_agree (all_views false false s 0 0) = false.
+  exists s, all_agree (all_views SrcNone SrcAuthz false s 0 0) = false.
 Proof.
   exists (mkSession (PS "c") (PS "s") [PS "openid"] (Some (PS "n")) 0 300). vm_compute. reflexivity.
 Qed.
@@ -317,20 +366,20 @@ Definition projects (s : session) (v : view) : Prop :=
   /\ (match v_nonce v with Some n => s_nonce s = Some n | None => True end)
   /\ opt_is (v_at_exp v) (s_at_exp s) /\ opt_is (v_idt_exp v) (s_idt_exp s).
 
-Theorem views_project : forall at_jwt s now v,
-  In v (all_views true at_jwt s now now) -> projects s v.
+Theorem views_project : forall asrc isrc at_jwt s now v, isrc <> SrcAuthz ->
+  In v (all_views asrc isrc at_jwt s now now) -> projects s v.
 Proof.
-  intros at_jwt s now v H. unfold all_views in H.
-  destruct at_jwt; cbn in H;
+  intros asrc isrc at_jwt s now v Hs H. unfold all_views in H.
+  destruct asrc, isrc, at_jwt; try congruence; cbn in H;
     repeat (destruct H as [<-|H]; [unfold projects; cbn; unfold expires_in;
                                    repeat split; try reflexivity; try lia; destruct (s_nonce s); reflexivity|]);
     contradiction.
 Qed.
 
 (* the relying party's expiry differs from the provider's by exactly the difference of the two clocks *)
-Theorem rp_expiry_skew : forall s now_op now_rp,
-  v_at_exp (view_rp true s now_op now_rp) = Some (s_at_exp s + (now_rp - now_op))%Z.
-Proof. intros. cbn. unfold expires_in. f_equal. lia. Qed.
+Theorem rp_expiry_skew : forall asrc isrc s now_op now_rp, asrc <> SrcNone ->
+  v_at_exp (view_rp asrc isrc s now_op now_rp) = Some (s_at_exp s + (now_rp - now_op))%Z.
+Proof. intros asrc isrc s now_op now_rp H. destruct asrc; try congruence; cbn; unfold expires_in; f_equal; lia. Qed.
 
 (* the composed model: the record is created once, at the authorization endpoint, from the request and from
    three functions of the environment (subject identifier, scope filter, lifetimes) *)
@@ -341,18 +390,19 @@ Section Composed.
              (now at_life idt_life : Z) : session :=
     mkSession client (sub_of user client) (filter_scopes client req_scope) nonce (now + at_life) (now + idt_life).
 
-  Theorem views_model : forall user client req_scope nonce now at_life idt_life at_jwt,
+  Theorem views_model : forall user client req_scope nonce now at_life idt_life asrc at_jwt,
     let s := authorize user client req_scope nonce now at_life idt_life in
-    all_agree (all_views true at_jwt s now now) = true
-    /\ (forall v, In v (all_views true at_jwt s now now) -> projects s v)
-    /\ all_agree (map forget_idt_exp (all_views false at_jwt s now now)) = true
-    /\ (forall has_token,
-         v_sub (view_rp has_token s now now) = Some (sub_of user client)
-         /\ v_scope (view_rp has_token s now now) = Some (filter_scopes client req_scope)
-         /\ v_nonce (view_rp has_token s now now) = nonce
-         /\ v_client (view_rp has_token s now now) = Some client).
+    (forall isrc, isrc <> SrcAuthz ->
+       all_agree (all_views asrc isrc at_jwt s now now) = true
+       /\ (forall v, In v (all_views asrc isrc at_jwt s now now) -> projects s v))
+    /\ all_agree (map forget_idt_exp (all_views asrc SrcAuthz at_jwt s now now)) = true
+    /\ (forall isrc,
+         v_sub (view_rp asrc isrc s now now) = Some (sub_of user client)
+         /\ v_scope (view_rp asrc isrc s now now) = Some (filter_scopes client req_scope)
+         /\ v_nonce (view_rp asrc isrc s now now) = nonce
+         /\ v_client (view_rp asrc isrc s now now) = Some client).
   Proof.
-    intros. split; [apply views_agree|]. split; [apply views_project|].
+    intros. split; [intros isrc Hs; split; [now apply views_agree|intros v; now apply views_project]|].
     split; [apply views_agree_implicit|]. intros; repeat split.
   Qed.
 End Composed.
